@@ -117,7 +117,24 @@ func c04Check(res *fw.Result, kind string, v any, indent bool, detail map[string
 	}
 }
 
+var (
+	c04MinMu    sync.Mutex
+	c04MinCache = map[string]map[string]any{}
+)
+
+// c04Minimal is memoised per key: a failing library produces the same key many times.
 func c04Minimal(kind, key string) map[string]any {
+	c04MinMu.Lock()
+	defer c04MinMu.Unlock()
+	if m, ok := c04MinCache[kind+"|"+key]; ok {
+		return m
+	}
+	m := c04MinimalSearch(kind, key)
+	c04MinCache[kind+"|"+key] = m
+	return m
+}
+
+func c04MinimalSearch(kind, key string) map[string]any {
 	for _, f := range xmlw.Features(kind) {
 		g := &xmlw.G{R: gen.New(1, "c04minimal"), Simple: true, MaxList: 1, Only: f}
 		v := g.Value(kind)
